@@ -44,7 +44,8 @@ SPEC = {
     ("Calibration", "pygmo_seed"): (0, False, 100000), ("Calibration", "num_islands"): (1, False, None),
     ("Calibration", "num_best_decisions"): (0, False, None),
     ("Algorithm", "generations"): (1, False, 100000), ("Algorithm", "population_size"): (1, False, 100000),
-    ("Algorithm", "variant"): (1, False, 18), ("Algorithm", "cr"): (0, False, 1), ("Algorithm", "m"): (0, False, 1),
+    ("Algorithm", "variant"): (1, False, 18), ("Algorithm", "variant_adptv"): (1, False, 2),
+    ("Algorithm", "cr"): (0, False, 1), ("Algorithm", "m"): (0, False, 1),
 }
 DETECTOR_CLASSES = {"Geometry", "Environment", "Characteristics", "APDCharacteristics"}
 
@@ -1060,7 +1061,7 @@ def mode_predicate(case, impl):
 
 
 MODE_INT = {("Calibration", "pygmo_seed"), ("Calibration", "num_islands"), ("Calibration", "num_best_decisions"),
-            ("Algorithm", "generations"), ("Algorithm", "population_size"), ("Algorithm", "variant")}
+            ("Algorithm", "generations"), ("Algorithm", "population_size"), ("Algorithm", "variant"), ("Algorithm", "variant_adptv")}
 
 
 # ------------------------------------------------------------------ body
